@@ -47,8 +47,8 @@ def run(ctx):
         ins = [o for o in T.ops if o["fn"] is f and o["kind"] == "insert"]
         ok = len(rem) == 1 and len(ins) == 1 and rem[0]["shard_arg"] is not None and ins[0]["shard_arg"] is not None and \
             strip_site(rem[0]["shard_arg"]) != strip_site(ins[0]["shard_arg"]) and same_value(rem[0]["args"][0], ins[0]["args"][0]) and \
-            ins[0]["bb"] in f.reach_after(rem[0]["bb"]) and f.must_pass([0], [ins[0]["bb"]]) and f.must_pass([0], [rem[0]["bb"]])
-        ctx.check(ok, "R10.1", "%s|move-old-to-new" % name, "a TTL change removes the id from the old expiry's shard and inserts it under the new expiry's shard, on every path", f.where())
+            (ins[0]["bb"] in f.reach_after(rem[0]["bb"]) or (ins[0]["bb"] == rem[0]["bb"])) and rem[0]["bb"] not in f.reach_after(ins[0]["bb"]) and f.must_pass([0], [ins[0]["bb"]]) and f.must_pass([0], [rem[0]["bb"]])
+        ctx.check(ok, "R10.1", "%s|move-old-to-new" % name, "a TTL change first removes the id from the old expiry's shard and then inserts it under the new expiry's shard, on every path (insert-then-remove would delete the fresh entry whenever both expiries share a shard)", f.where())
 
     # ---- R10.2 sweep ------------------------------------------------------------------------------
     retains = [o for o in T.ops if o["kind"] == "retain"]
@@ -145,6 +145,7 @@ def run(ctx):
     # ---- R10.5 id guard: stale index entries are inert ------------------------------------------------------
     id_guard(ctx, M, "R10.5")
 
+    no_overwrite(ctx, "R10.8")
     # ---- R10.6 the sweeper's hook reaches release and store removal -------------------------------------------
     spawn = F.spawn_closures()
     sw = [o["fn"] for o in retains]
@@ -217,3 +218,14 @@ def id_guard(ctx, M, RULE):
         okid = okid and fresh
     ctx.check(okid, RULE, "ids-fresh", "every key description gets its id from the atomic fetch_add generator (an old index entry can never name a newer incarnation)",
               detail=str([f.where(bb) for f, bb, t in sites]))
+
+def no_overwrite(ctx, RULE):
+    """hooks remove store entries by key: that hits the right incarnation only if a store insert never overwrites
+    an existing entry (C05 R05.3)"""
+    import c05
+    sub = type(ctx)(ctx.prop, ctx.facts, ctx.tier, ctx.config)
+    c05.run(sub)
+    for o in sub.obligations:
+        if o["rule"] == "R05.3":
+            ctx._add(o["status"], RULE, o["key"].split("|", 1)[1],
+                     o["desc"] + " [needed here because the eviction/expiry hooks remove the store entry by key: an overwritten entry would make a stale id remove a newer incarnation]", o["where"], o["detail"])
